@@ -111,13 +111,18 @@ func c04Election(p *chk.Prog, r *chk.Report) {
 	}
 	f, g := e.f, e.g
 	// the winner test
-	wins := g.FindPat("L[0] == RECV.myNode", chk.H("RECV", isRecv(f)))
+	// the comparison of element 0 with the local node, in either polarity
+	wins := append(g.FindPat("L[0] == RECV.myNode", chk.H("RECV", isRecv(f))), g.FindPat("L[0] != RECV.myNode", chk.H("RECV", isRecv(f)))...)
 	if len(wins) != 1 {
 		x.Fail("ShouldAnnounce:winner-is-element-0", f.Pos(), "no test `candidates[0] == c.myNode`: the winner is not element 0 of the sorted candidate list")
 		return
 	}
 	win := wins[0]
-	list := f.ObjOf(f.MatchNew("L[0] == M", win.Node.(ast.Expr))["L"])
+	wb := f.MatchNew("L[0] == M", win.Node.(ast.Expr))
+	if wb == nil {
+		wb = f.MatchNew("L[0] != M", win.Node.(ast.Expr))
+	}
+	list := f.ObjOf(wb["L"])
 	x.OK("ShouldAnnounce:winner-is-element-0", win.Pos(), "")
 	if e.sc == nil || e.sc.Less == nil {
 		x.Fail("ShouldAnnounce:candidates-sorted", win.Pos(), "the candidate list (built from Go map iteration) is not sorted before element 0 is read: the winner depends on map order")
